@@ -25,6 +25,8 @@ def configs(prop, tier):
         return [dict(MaxLen=L, Codecs=True), dict(MaxLen=min(L, 4), Codecs=True, LazyC=True)]
     if prop == "C04":
         return [dict(MaxLen=L, Mixin='"msgpack"'), dict(MaxLen=L - 1, Mixin='"orjson"', KwFlags=True)]
+    if prop == "C02":
+        return [dict(MaxLen=3, LazyC=True, Mixin='"msgpack"'), dict(MaxLen=3, LazyC=True, LazyInner=True, Mixin='"orjson"')]
     if prop == "C08":
         return [dict(MaxLen=L - 1, LazyC=True, KwFlags=True), dict(MaxLen=L - 1, KwFlags=True)]
     raise KeyError(prop)
